@@ -332,8 +332,11 @@ fn c19_record_consistency() {
         if chromatic && !hist && v >= 0.0 && v <= 10.0 {
             vassert!(c.fraction as f64 >= -1.0e-5 && (c.fraction as f64) < semi + 1.0e-5, "C19/chromatic-fraction-in-[0,1)-semitone");
         }
+        // "the window kept the previous note": v strictly inside the widened bucket (2 uV inside its edges, so that
+        // the f32 rounding of the edges cannot matter); at the very edge the history-free path may return the same
+        // note by the nearest-note rule, with a fraction computed from the clamped input
         let kept = still_allowed && c.note_num == n0
-            && (v as f64) > (n0 as f64 - 0.1) / 12.0 - 1.0e-6 && (v as f64) < (n0 as f64 + 1.1) / 12.0 + 1.0e-6;
+            && (v as f64) > (n0 as f64 - 0.1) / 12.0 + 2.0e-6 && (v as f64) < (n0 as f64 + 1.1) / 12.0 - 2.0e-6;
         if kept {
             // 10 microvolts: the f32 grid at 10 V is about 1 microvolt and stairstep, window edge and
             // difference are each rounded to it
